@@ -6,6 +6,7 @@ package main
 // statements and enumerates the readings they leave open.
 
 import (
+	"fmt"
 	"sort"
 	"strconv"
 	"strings"
@@ -226,7 +227,30 @@ func c08Direct() []directProg {
 		want = append(want, "rd e="+ank.Render([]interface{}{t, e[1]}), "rd k="+ank.Render(t))
 	}
 	want = append(want, "rd n="+ank.Render(int64(len(entries))))
-	return []directProg{{name: "forin-map-keys-that-print-alike", src: src, want: want, sig: "forin-map:entries-visited"}}
+	progs := []directProg{{name: "forin-map-keys-that-print-alike", src: src, want: want, sig: "forin-map:entries-visited"}}
+	// truthiness classes of condition values of host types: zero / non-zero numbers of every Go
+	// number kind, empty / non-empty typed containers and strings - in if, else-if and loop conditions
+	cond := func(name, mk string, kinds []string) directProg {
+		var b strings.Builder
+		var w []string
+		for _, k := range kinds {
+			for _, n := range []int64{0, 3} {
+				t := int64(0)
+				if n != 0 {
+					t = 1
+				}
+				fmt.Fprintf(&b, "v = %s(%q, %d)\nif v { rd(\"if\", [%q, %d, 1]) } else { rd(\"if\", [%q, %d, 0]) }\n", mk, k, n, k, n, k, n)
+				fmt.Fprintf(&b, "if false { rd(\"x\", 0) } else if v { rd(\"elif\", [%q, %d, 1]) } else { rd(\"elif\", [%q, %d, 0]) }\n", k, n, k, n)
+				fmt.Fprintf(&b, "c = 0\nfor v { c++; break }\nrd(\"loop\", [%q, %d, c])\n", k, n)
+				fmt.Fprintf(&b, "c = 0\nfor i = 0; %s(%q, %d) && i < 2; i++ { c++ }\nrd(\"cfor\", [%q, %d, c])\n", mk, k, n, k, n)
+				w = append(w, "rd if="+ank.Render([]interface{}{k, n, t}), "rd elif="+ank.Render([]interface{}{k, n, t}),
+					"rd loop="+ank.Render([]interface{}{k, n, t}), "rd cfor="+ank.Render([]interface{}{k, n, 2 * t}))
+			}
+		}
+		return directProg{name: name, src: b.String(), want: w, sig: "truthiness:" + name}
+	}
+	progs = append(progs, cond("host-number-kinds", "hnum", realrun.HostNumKinds), cond("host-container-types", "hcont", realrun.HostContKinds))
+	return progs
 }
 
 // C09: every deferred call runs exactly once, in reverse order, with the arguments of its
